@@ -142,7 +142,7 @@ func registerHash(e *Engine) {
 		case 7:
 			return in.newHash("sha512")
 		}
-		panic(goPanic{val: IfaceV{T: types.Typ[types.String], V: StrV{S: "crypto: requested hash function is unavailable"}}, site: in.site(), msg: "panic: crypto: requested hash function #" + fmt.Sprint(h) + " is unavailable"})
+		panic(in.mkPanic(IfaceV{T: types.Typ[types.String], V: StrV{S: "crypto: requested hash function is unavailable"}}, "panic: crypto: requested hash function #"+fmt.Sprint(h)+" is unavailable"))
 	}
 	I["(crypto.Hash).Available"] = func(in *Interp, fn *ssa.Function, a []Value) Value {
 		c := in.ctx
